@@ -53,7 +53,7 @@ NEEDS = {
  "C15-4": "a lat/lon-ordered set and a second call on the same tile matrix (helper swaps the shared PointOfOrigin array in place through the pointer)",
  "C06-7": "a polygon with two or more inner rings, one outside every outer ring and a later one with a vertex in or on it (match counter sized once, polygons grown inside the loop: index out of range in matchInnersToPolygons)",
  "C06-8": "two rings of the same kind that snap to the same vertices but start at different corners (ringsAreEqual: hand-wrapped index with j > ringLen instead of >=)",
- "C02-5": "a short edge (|dx|, |dy| below 0.43 units) and a hot pixel holding neither end point (cmpFrac fast path: plain int64 products wrap between 2^63 and 2^64)",
+ "C02-5": "a short edge (dx and dy below 0.43 units in absolute value) and a hot pixel holding neither end point (cmpFrac fast path: plain int64 products wrap between 2^63 and 2^64)",
  "C08-3": "two or more tile matrices with the deepest one having an odd integer pixel size (centroid offset computed as 2^(d-l) * (res/2) instead of (2^(d-l) * res)/2)",
  "C17-4": "x within 32 bits and y not (ok shadowed in the refactored ToZ: the result reports the range check of x only; MustToZ no longer panics)",
  "C06-1": "a ring starting with a zig-zag whose forward matches outnumber the reverse ones by two or more (removal range computed from the wrong count: slice bounds out of range)",
